@@ -81,6 +81,11 @@ def replay(pid, r, rundir):
     for t in tests:
         t = re.sub(r'kani::concrete_playback_run\(\s*concrete_vals\s*,\s*%s\s*\)' % re.escape(fn),
                    'kani::concrete_playback_run(concrete_vals, %s)' % modpath, t)
+        # Kani copies the (possibly multi-line) check description into a `///` comment without
+        # re-commenting continuation lines: comment out every line before `#[test]`
+        head, sep, tail = t.partition('#[test]')
+        head = '\n'.join(l if (l.startswith('///') or not l.strip()) else '/// ' + l for l in head.split('\n'))
+        t = head + sep + tail
         m = re.search(r'fn (kani_concrete_playback_\w+)', t)
         if m:
             names.append(m.group(1))
